@@ -249,6 +249,38 @@ CHECKS = {
         note=LEVEL_NOTE_N + "; gain clause asserted on well-conditioned designs only (f_low*dt >= 0.016, record >= 40 longest periods)"),
 }
 
+
+# later growth of the checks, recorded as amendments of the descriptions above (old fragment -> new fragment)
+AMEND = [
+    ("C05", "Pure calls: 85 array-/signal-level functions x {float64,int64} x {ndarray,list}: argument digests before/after and result digests of two successive calls; TLC evaluates the frame condition.",
+     "Pure calls: 156 entries (every array-/signal-level public function, and every optional parameter of each set at least once: rarely used option combinations, out-of-range queries, aliases) x 14 input variants ({float64,int64} x {ndarray,list} + 5 record shapes x 2 dtypes), each made inside a call history (other arguments of the same shapes before and between the two compared calls, other lengths in between): argument digests before/after and result digests of the two calls; TLC evaluates the frame condition."),
+    ("C11", "of exactly that series equal the model. Trace_Peaks: random real-valued and plateau-rich series up to 5000 samples validated sample by sample.",
+     "of exactly that series equal the model; on every plateau-free series the cleaned-array entry point and its deprecated alias return the same set. Trace_Peaks: random real-valued and plateau-rich series up to 5000 samples (near ties, tiny amplitudes, int16 / int32 / float32 counts, lists, signal-level wrappers, defaults) validated sample by sample."),
+    ("C12", "and the tol = 0.5 / 1.5 results are subsequences. Trace_Crossings: random series up to 5000 samples validated sample by sample.",
+     "and the tol = 1 / 1.5 / 2 results are subsequences. Trace_Crossings: random series up to 5000 samples and 400 / 3000 short series (near ties on crests, records in nano- and mega-units with the tolerance scaled alike, exact zeros, plateaus; keyword, default and signal-level calls) validated sample by sample."),
+    ("C13", "Trace_PeakSeries: random series (plateau starts, offsets, zero touch-downs) to 5000 samples;",
+     "Trace_PeakSeries: random series (plateau starts, offsets, zero touch-downs, amplitudes 1e-12 .. 1e8, integer counts) to 1500 samples;"),
+    ("C15", "on on-grid sinusoids (two phases) for many (n, dt) pairs over the middle half.",
+     "on on-grid sinusoids (two phases, amplitudes 1e-12 .. 3e6) for many (n, dt) pairs over the middle half."),
+    ("C16", "every file is really written with save_signal, loaded through each entry point and re-saved,",
+     "every file is really written with save_signal, loaded through each entry point (documented positional order and keywords alternate) and re-saved,"),
+    ("C16", "Trace_TextFormat: random floats up to 1e9, dt in [1e-4, 100], labels with spaces: tolerance clauses evaluated by TLC.",
+     "Trace_TextFormat: random floats up to 1e9, dt in [1e-4, 100], labels with spaces, save_signal and the array-level save_values_and_dt (arrays and lists): tolerance clauses evaluated by TLC."),
+    ("C17", "on sinusoids across pass, transition and stop bands with random phase:",
+     "on sinusoids across pass, transition and stop bands with random phase, incl. long-period corners (f_c*dt down to 1e-4 on records of up to 2^17 samples, orders 1-2 and 3 for low / high pass) and a low-pass followed by a high-pass of the same order and corner:"),
+    ("C17", "add_constant / add_series / add_signal element-wise incl. the cases that must raise;",
+     "add_constant / add_series / add_signal element-wise in five units (ordinary, nano, pico, counts, zero addends) incl. the cases that must raise;"),
+    ("C18", "compute_rotated scans (pga / callable pgv / arias_intensity / series callable; offsets; points) re-computed by TLC from the definition.",
+     "compute_rotated scans (pga / callable pgv / arias_intensity / series callable / the array-valued named parameter velocity; offsets; points) re-computed by TLC from the definition with tolerances relative to the measure of |ns| + |we|; same_start with explicit, default (first second) and start-only windows."),
+    ("C19", "cumulative series, scaling and batch-row relation events;",
+     "cumulative series, scaling relation events, and batch row = single-travel-time result under every nodal x trim x start x stt combination for both energy functions;"),
+    ("C20", "c_h_factor / sd_nzs / t_eff for classes C, D, E: S_d",
+     "c_h_factor / sd_nzs / t_eff for classes C, D, E with three (Z, R, N) sets each: S_d"),
+]
+for _pid, _old, _new in AMEND:
+    assert _old in CHECKS[_pid]["text"], (_pid, _old[:50])
+    CHECKS[_pid]["text"] = CHECKS[_pid]["text"].replace(_old, _new)
+
 NOT_YET = {}
 
 
